@@ -19,7 +19,9 @@ pub enum Op {
     /// `dead`: the record names a destination nobody listens on, so the proxy's own connect to the host fails at accept time
     /// `idle`: no request is sent right after connecting (the record must be consumed at accept all the same)
     Open { slot: u8, reuse_of: Option<u8>, record: Option<u8>, #[serde(default)] dead: bool, #[serde(default)] idle: bool },
-    Request { slot: u8, only: u8 },
+    /// `hang_up`: the host closes its connection with the proxy right after answering this request (unannounced);
+    /// `other_host`: the Host header names another endpoint than the one the kernel recorded
+    Request { slot: u8, only: u8, #[serde(default)] hang_up: bool, #[serde(default)] other_host: bool },
     /// the kernel writes a new record for the slot's port while its connection is still open
     Overwrite { slot: u8, ident: u8 },
     Close { slot: u8 },
@@ -37,7 +39,7 @@ pub struct Case {
 fn op() -> impl Strategy<Value = Op> {
     prop_oneof![
         20 => (0u8..4, prop::option::weighted(0.55, 0u8..4), prop::option::weighted(0.6, 0u8..IDENTS), prop::bool::weighted(0.15), prop::bool::weighted(0.25)).prop_map(|(slot, reuse_of, record, dead, idle)| Op::Open { slot, reuse_of, record, dead, idle }),
-        30 => (0u8..4, 0u8..IDENTS).prop_map(|(slot, only)| Op::Request { slot, only }),
+        30 => (0u8..4, 0u8..IDENTS, prop::bool::weighted(0.12), prop::bool::weighted(0.3)).prop_map(|(slot, only, hang_up, other_host)| Op::Request { slot, only, hang_up, other_host }),
         10 => (0u8..4, 0u8..IDENTS).prop_map(|(slot, ident)| Op::Overwrite { slot, ident }),
         10 => (0u8..4).prop_map(|slot| Op::Close { slot }),
         5 => prop::collection::vec(0u8..IDENTS, 2..9).prop_map(|idents| Op::Batch { idents }),
@@ -49,7 +51,7 @@ pub fn strategy() -> impl Strategy<Value = Case> {
     prop::collection::vec(op(), 1..24).prop_map(|ops| Case { ops })
 }
 
-pub const RULE: &str = "generator: histories (1-23 ops) over 4 connection slots and 5 identities: Open{fresh port | the port last used by a slot (that connection is reset with SO_LINGER 0 first and the new socket binds the same port), a quarter of the opens stay idle (no request follows the connect: the record must be consumed at accept all the same, within 5 s), in 15% of the attributed opens the record names an unreachable destination so that the proxy's own connect to the host fails at accept time, with a record for identity k or without}, Request{slot, /only/<j>}, Overwrite{slot's port gets a new record while its connection is open}, Close, Batch{2-8 connections opened concurrently from threads, each with its own identity}, Flood{200-1199 idle connections are held open while one attributed connection is opened, used and closed}. Identities differ in uid (generated passwd), process (helper executables) and elevation; the IMDS rule set (enforce, default deny) grants /only/<k> to identity k only, so every decision identifies whose claims were used, and the forwarded claims header gives the elevation bit. oracle: model port -> pending record; at accept the record moves to the connection and leaves the map (trace shows lookup then remove; the stand-in map has no entry for the port afterwards); every request on a connection is decided with that connection's identity regardless of later overwrites; a connection from a reused port without a fresh record gets 421 on every request. non-trivial: history with a port reuse without a fresh record after an attributed connection, or >= 2 requests on one connection with an overwrite in between, or a batch >= 4; distinct by hash of the history.";
+pub const RULE: &str = "generator: histories (1-23 ops) over 4 connection slots and 5 identities: Open{fresh port | the port last used by a slot (that connection is reset with SO_LINGER 0 first and the new socket binds the same port), a quarter of the opens stay idle (no request follows the connect: the record must be consumed at accept all the same, within 5 s), in 15% of the attributed opens the record names an unreachable destination so that the proxy's own connect to the host fails at accept time, with a record for identity k or without}, Request{slot, /only/<j>; 12%: the host closes its connection with the proxy right after answering; 30%: the Host header names another endpoint than the recorded one}, Overwrite{slot's port gets a new record while its connection is open}, Close, Batch{2-8 connections opened concurrently from threads, each with its own identity}, Flood{200-1199 idle connections are held open while one attributed connection is opened, used and closed}. Identities differ in uid (generated passwd), process (helper executables) and elevation; the IMDS rule set (enforce, default deny) grants /only/<k> to identity k only, so every decision identifies whose claims were used, and the forwarded claims header gives the elevation bit. oracle: no request ever arrives at a host other than the one the kernel recorded for its connection (after a host hang-up a 5xx without relay is accepted); model port -> pending record; at accept the record moves to the connection and leaves the map (trace shows lookup then remove; the stand-in map has no entry for the port afterwards); every request on a connection is decided with that connection's identity regardless of later overwrites; a connection from a reused port without a fresh record gets 421 on every request. non-trivial: history with a port reuse without a fresh record after an attributed connection, or >= 2 requests on one connection with an overwrite in between, or a batch >= 4; distinct by hash of the history.";
 
 pub fn ident_rec(k: u8) -> Rec {
     Rec { uid_sel: k % IDENTS, helper_sel: k % IDENTS, is_root: k % IDENTS == 0, dest: DestSel::Imds }
@@ -71,6 +73,8 @@ pub fn rules(rig: &Rig) -> GDoc {
 }
 
 struct Slot {
+    /// the host has closed the proxy's connection for this client connection: a relay may fail (5xx), it must never go elsewhere
+    upstream_closed: bool,
     /// the record's destination is unreachable: requests are answered with an error status, nothing is relayed
     dead: bool,
     conn: Option<Conn>,
@@ -94,12 +98,27 @@ fn request_on_dead(rig: &Rig, conn: &mut Conn, only: u8) -> Result<(), (String, 
 }
 
 fn request_on(rig: &Rig, conn: &mut Conn, identity: Option<u8>, only: u8) -> Result<(), (String, String)> {
+    request_on_opts(rig, conn, identity, only, false, false, false)
+}
+
+fn request_on_opts(rig: &Rig, conn: &mut Conn, identity: Option<u8>, only: u8, hang_up: bool, other_host: bool, upstream_closed: bool) -> Result<(), (String, String)> {
     let _ = rig.mock.take_requests();
     let target = format!("/only/{}", only % IDENTS);
-    let wire = crate::rawhttp::request_head("GET", &target, &[("Host".into(), b"169.254.169.254".to_vec()), ("Metadata".into(), b"true".to_vec())]);
+    let mut hs: Vec<(String, Vec<u8>)> = vec![("Host".into(), if other_host { b"10.99.0.1:8080".to_vec() } else { b"169.254.169.254".to_vec() }), ("Metadata".into(), b"true".to_vec())];
+    if hang_up {
+        hs.push(("x-host-hangs-up".into(), b"1".to_vec()));
+    }
+    let wire = crate::rawhttp::request_head("GET", &target, &hs);
     conn.send(&wire).map_err(|e| ("attribution:client-send-failed".to_string(), e.to_string()))?;
     let resp = conn.read("GET", Duration::from_secs(20)).map_err(|e| ("attribution:no-response".to_string(), format!("{} on port {}: {:?}", target, conn.port, e)))?;
     let seen = rig.mock.take_requests();
+    if let Some(r) = seen.iter().find(|r| r.listener != "imds") {
+        return Err(("attribution:request-delivered-to-another-destination".into(), format!("{} on the connection recorded for 169.254.169.254:80 (port {}) arrived at the '{}' host (Host header {:?})", target, conn.port, r.listener, r.head.get("host").map(|v| String::from_utf8_lossy(v).to_string()))));
+    }
+    if upstream_closed && identity.map(|k| only % IDENTS == k).unwrap_or(false) && (500..600).contains(&resp.status) && seen.is_empty() {
+        // the host has hung up on this connection's upstream leg: an error status without any relay is all the proxy can do
+        return Ok(());
+    }
     match identity {
         None => {
             if resp.status != 421 {
@@ -132,7 +151,12 @@ pub fn eval(rig: &Rig, case: &Case, stats: &mut Stats) -> Outcome {
     rig.set_rules(None, Some(&doc), None);
     rig.set_key(None);
     verif_hooks::clear();
-    let mut slots: Vec<Slot> = (0..4).map(|_| Slot { dead: false, conn: None, port: 0, identity: None, had_attributed_before: false, requests_since_open: 0, overwritten_since_open: false }).collect();
+    rig.mock.set_responder(Box::new(|r| {
+        let mut s = crate::mockhost::ResponseSpec::ok(b"mock");
+        s.close_after = r.head.get("x-host-hangs-up").is_some();
+        s
+    }));
+    let mut slots: Vec<Slot> = (0..4).map(|_| Slot { upstream_closed: false, dead: false, conn: None, port: 0, identity: None, had_attributed_before: false, requests_since_open: 0, overwritten_since_open: false }).collect();
     // model of the kernel map: port -> identity of the pending record
     let mut pending: BTreeMap<u16, u8> = BTreeMap::new();
     let mut nontrivial = false;
@@ -209,7 +233,7 @@ pub fn eval(rig: &Rig, case: &Case, stats: &mut Stats) -> Outcome {
                     stats.class("open:reused-port-without-fresh-record-after-attributed-connection");
                     nontrivial = true;
                 }
-                slots[s] = Slot { dead, conn: Some(conn), port: p, identity, had_attributed_before: identity.is_some(), requests_since_open: 0, overwritten_since_open: false };
+                slots[s] = Slot { upstream_closed: false, dead, conn: Some(conn), port: p, identity, had_attributed_before: identity.is_some(), requests_since_open: 0, overwritten_since_open: false };
                 // first request: also proves that accept processing is over
                 let mut pre_trace: Vec<TraceOp> = Vec::new();
                 if *idle {
@@ -244,12 +268,21 @@ pub fn eval(rig: &Rig, case: &Case, stats: &mut Stats) -> Outcome {
                     return Outcome::fail("attribution:record-left-in-map-after-accept", format!("step {} {:?}: port {} still has a record after its connection was accepted", step, op, p));
                 }
             }
-            Op::Request { slot, only } => {
+            Op::Request { slot, only, hang_up, other_host } => {
                 let s = *slot as usize % 4;
                 let identity = slots[s].identity;
                 let dead = slots[s].dead;
+                let closed = slots[s].upstream_closed;
+                if closed {
+                    stats.class("request:after-the-host-hung-up-on-this-connection");
+                }
                 if let Some(conn) = slots[s].conn.as_mut() {
-                    let r = if dead { request_on_dead(rig, conn, *only) } else { request_on(rig, conn, identity, *only) };
+                    let r = if dead { request_on_dead(rig, conn, *only) } else { request_on_opts(rig, conn, identity, *only, *hang_up, *other_host, closed) };
+                    if *hang_up && !dead {
+                        slots[s].upstream_closed = true;
+                        // let the proxy notice that its host connection is gone
+                        std::thread::sleep(Duration::from_millis(3));
+                    }
                     if let Err((sig, d)) = r {
                         return Outcome::fail(sig, format!("step {} {:?}: {}", step, op, d));
                     }
